@@ -503,6 +503,179 @@ def rng_free_uses_doc(target):
     return target.startswith("$")
 
 
+# ---------------------------------------------------------------- containers RETURNED by methods
+# a.sort(), o.pluck(...), s.split(...) make a new container holding copies of the scalars: stores / ++ / op= / push / pop on the
+# result change nothing in the receiver (or the document it lives in), and later changes of the receiver do not show in the result.
+
+MR_WORDS = ["pear", "fig", "apple", "kiwi", "plum", "date", "lime", "nut", "yam", "oat"]
+
+
+def mr_array(rng, n, kind):
+    if kind == "num":
+        pool = [float(x) for x in rng.sample(range(-9, 60), max(1, n))] + [2.5, -0.5, 30.0, 30.0]
+        return [rng.choice(pool) if rng.random() < 0.25 else pool[i % len(pool)] for i in range(n)]
+    if kind == "str":
+        return [rng.choice(MR_WORDS) + rng.choice(["", "", "2", "s"]) for _ in range(n)]
+    return [rng.choice([float(rng.randint(0, 30)), rng.choice(MR_WORDS)]) for _ in range(n)]
+
+
+def mr_sorted(a):
+    if all(isinstance(x, float) for x in a):
+        return sorted(a)
+    return sorted(a, key=lambda v: (pyref.fmt_f(v) if isinstance(v, float) else v).encode())
+
+
+def mr_list_op(rng, cur, numeric):
+    """one change of a list: (kind, index or None, value or None)"""
+    n = len(cur)
+    V = rng.choice([0.0, 99.0, -1.0, "new", True, None, 7.5])
+    w = rng.random()
+    if n and w < 0.4:
+        return ("store", float(rng.randrange(n)), V)
+    if n and w < 0.5:
+        return ("store", float(-rng.randint(1, n)), V)
+    if n and w < 0.68:
+        i = rng.randrange(n)
+        if isinstance(cur[i], float):
+            return rng.choice([("inc", float(i), None), ("dec", float(i), None), ("op", float(i), 5.0)])
+        return ("op", float(i), "x")
+    if w < 0.8:
+        return ("push", None, V)
+    if w < 0.88:
+        return ("store", float(n + rng.choice([0, 0, 1, 3])), V)
+    if n and w < 0.95:
+        return (rng.choice(["pop", "popfirst"]), None, None)
+    return ("push", None, V)
+
+
+def mr_apply_list(cur, op):
+    kind, i, V = op
+    env = {"T": cur}
+    if kind == "store":
+        treeref.store(env, "T", [i], V)
+    elif kind in ("inc", "dec"):
+        treeref.store(env, "T", [i], pyref.num(treeref.read(env, "T", [i])) + (1.0 if kind == "inc" else -1.0))
+    elif kind == "op":
+        treeref.store(env, "T", [i], pyref.binop("+", treeref.read(env, "T", [i]), V))
+    elif kind == "push":
+        cur.append(V)
+    elif kind == "pop":
+        cur.pop()
+    else:
+        cur.pop(0)
+
+
+def mr_src_list(T, op):
+    kind, i, V = op
+    t = "%s[%s]" % (T, pyref.fmt_f(i) if i is not None and i >= 0 else ("-" + pyref.fmt_f(-i) if i is not None else ""))
+    if kind == "store":
+        return "%s = %s" % (t, pyref.literal(V))
+    if kind == "inc":
+        return "%s++" % t
+    if kind == "dec":
+        return "r_ = --%s" % t
+    if kind == "op":
+        return "%s += %s" % (t, pyref.literal(V))
+    if kind == "push":
+        return "%s.push(%s)" % (T, pyref.literal(V))
+    return "%s.%s()" % (T, kind)
+
+
+def mr_host(rng, recv):
+    """(receiver expression, setup statements, rule template, document or None, path of the receiver in the document)"""
+    h = rng.choice(["var", "objvar", "doc", "docdeep", "root", "param"])
+    lit = pyref.literal(recv)
+    if h == "var":
+        return "a", "a = %s" % lit, "BEGIN {\n %s\n}", None, None
+    if h == "objvar":
+        return rng.choice(["v.l", "v['l']"]), "v = {l: %s, n: 1}" % lit, "BEGIN {\n %s\n}", None, None
+    if h == "param":
+        return "pp", None, "function fn(pp) {\n %%s\n}\nBEGIN { fn(%s) }" % lit, None, None
+    if h == "doc":
+        return "$.scores", None, "{\n %s\n}", {"scores": recv, "n": 1.0}, ["scores"]
+    if h == "docdeep":
+        return "$.o.list", None, "{\n %s\n}", {"o": {"list": recv, "k": "v"}, "l": [1.0]}, ["o", "list"]
+    return "$", None, "BEGINFILE {\n %s\n}", recv, []
+
+
+def method_result_case(rng, n, method, who):
+    """who: 'result' / 'receiver' / 'both' = which side is changed after the call"""
+    if method == "sort":
+        recv = mr_array(rng, n, rng.choice(["num", "num", "num", "str", "mixed"]))
+        res = mr_sorted(recv)
+        call = "%s.sort()"
+    elif method == "split":
+        recv = ",".join(rng.choice(MR_WORDS + [""]) for _ in range(n)) if n else ""
+        res = recv.split(",")
+        call = "%s.split(',')"
+    else:
+        keys = rng.sample(["a", "b", "c", "d", "k1", "zz"], min(6, max(1, n)))
+        recv = {k: rng.choice([1.0, 2.5, "x", True, None, 40.0]) for k in keys}
+        want = rng.sample(keys, rng.randint(1, len(keys))) + rng.sample(["miss", "length"], rng.randint(0, 2))
+        res = {k: recv.get(k) for k in want}
+        call = "%s.pluck(" + ", ".join(pyref.literal(k) for k in want) + ")"
+    R, setup, tmpl, doc, dpath = mr_host(rng, recv)
+    if method != "sort" and R == "$" and not isinstance(recv, list):
+        if method == "split":
+            return None
+        tmpl = "{\n %s\n}"          # an object root: the pattern rule sees it as $
+    recv = copy.deepcopy(recv)
+    if doc is not None:
+        doc = copy.deepcopy(doc)
+        recv = doc
+        for k in dpath:
+            recv = recv[k]
+    inp = json.dumps(doc) if doc is not None else None
+    lines = [setup] if setup else []
+    lines += ["s = " + call % R, "print 's', s", "print 'r', %s" % R]
+    out = ["s " + pyref.pretty(res), "r " + pyref.pretty(recv)]
+    nops = rng.choice([1, 1, 2, 3])
+    touched_res = touched_recv = False
+    for j in range(nops):
+        side = who if who != "both" else ("result" if j % 2 == 0 else "receiver")
+        if side == "receiver" and method == "split":
+            # the receiver is a string: replace it
+            newv = rng.choice(["q,r", "", "zzz"])
+            lines.append("%s = %s" % (R, pyref.literal(newv)))
+            if doc is None:
+                recv = newv
+            else:
+                par = doc
+                for k in dpath[:-1]:
+                    par = par[k]
+                par[dpath[-1]] = newv
+                recv = newv
+            touched_recv = True
+        elif method == "pluck":
+            T, cur = ("s", res) if side == "result" else (R, recv)
+            key = rng.choice(sorted(cur) + ["fresh"]) if cur else "fresh"
+            w = rng.random()
+            if w < 0.5 or not isinstance(cur.get(key), float):
+                V = rng.choice([0.0, "new", False, [1.0]])
+                lines.append("%s = %s" % (treeref.src_path(T, [key], rng), pyref.literal(V)))
+                cur[key] = V
+            else:
+                lines.append("%s++" % treeref.src_path(T, [key], rng))
+                cur[key] = cur[key] + 1.0
+            touched_res |= side == "result"
+            touched_recv |= side == "receiver"
+        else:
+            T, cur = ("s", res) if side == "result" else (R, recv)
+            op = mr_list_op(rng, cur, True)
+            try:
+                mr_apply_list(cur, op)
+            except (RErr, Unspecified, pyref.RuntimeErr):
+                return None
+            lines.append(mr_src_list(T, op))
+            touched_res |= side == "result"
+            touched_recv |= side == "receiver"
+        lines += ["print 's', s", "print 'r', %s" % R]
+        out += ["s " + pyref.pretty(res), "r " + pyref.pretty(recv)]
+    prog = tmpl % "\n ".join(lines)
+    what = "%s of %d elements at %s, then %s changed" % (method, n, R, who)
+    return prog, inp, "".join(l + "\n" for l in out), doc, what
+
+
 # ---------------------------------------------------------------- the check
 
 class C09(Check):
@@ -518,7 +691,10 @@ class C09(Check):
             "disjoint parts of one value x 1-4 writes (++, =, op=) under each root, every root printed before and after (a write "
             "made under one root is not there under the next); compound assignments whose target has a side effect (i++, ++i, "
             "n = n + 1, a function call, pop / popfirst, two indices) paired with the spelled-out a = a op b: same outcome, output "
-            "and document.  non-trivial = a store that creates an "
+            "and document; s = R.sort() for every length 0-20 (numbers, strings, mixed), R.split(','), R.pluck(...) with R a variable, a "
+            "member, a parameter, a member of the input document or its root, followed by 1-3 changes (element store at any position "
+            "incl. negative / at / past the end, ++, --, +=, push, pop, popfirst, member stores) of the result, of the receiver, or of "
+            "both in turn: both printed after every change, and the final document compared.  non-trivial = a store that creates an "
             "intermediate container, or a read of a missing location followed by a dump")
 
     def generate(self, rng, tier):
@@ -577,6 +753,23 @@ class C09(Check):
                 cid = "p%d_%d" % (rep, j)
                 meta = {"kind": "probe", "prog": prog, "input": inp, "expect": exp, "slice_stdout": slice_out}
                 cases.append(Case(cid, simple_run(cid, prog, [inp] if inp is not None else []), meta, True, tags))
+        # containers returned by sort / split / pluck are independent of their receiver
+        k = 0
+        reps = 2 if tier == "quick" else 30
+        combos = [("sort", n, who) for n in range(0, 21) for who in ("result", "receiver", "both")] * reps
+        combos += [(m_, n, who) for m_ in ("split", "pluck") for n in range(0, 7) for who in ("result", "receiver", "both")] * reps
+        for method, n, who in combos:
+            for _ in range(20):
+                mc = method_result_case(rng, n, method, who)
+                if mc is not None:
+                    break
+            else:
+                continue
+            prog, inp, exp, final, what = mc
+            cid = "t%d" % k
+            k += 1
+            cases.append(Case(cid, simple_run(cid, prog, [inp] if inp is not None else []),
+                              {"kind": "methres", "prog": prog, "input": inp, "stdout": exp, "final": final, "what": what}, n > 0))
         return cases
 
     def oracle(self, case, impl):
@@ -617,6 +810,18 @@ class C09(Check):
                     j += 1
                 return "selectors %s: every root is a value of its own; line %d: reference %r, implementation %r (%s)" % (
                     " ".join("-r '%s'" % x for x in m["selectors"]), j + 1, w[j] if j < len(w) else "<end>", g[j] if j < len(g) else "<end>", impl.outcome)
+            return None
+        if kind == "methres":
+            got = impl.stdout.decode("utf-8", "replace")
+            if impl.outcome != "ok" or got != m["stdout"]:
+                w, g = m["stdout"].splitlines(), got.splitlines()
+                j = 0
+                while j < min(len(w), len(g)) and w[j] == g[j]:
+                    j += 1
+                return "%s: the result of the method and its receiver are separate containers; line %d: reference %r, implementation %r (%s)" % (
+                    m["what"], j + 1, w[j] if j < len(w) else "<end>", g[j] if j < len(g) else "<end>", impl.outcome)
+            if m["final"] is not None:
+                return self.cmp_json(impl.json, m["final"], "document after changes to the method's result / receiver")
             return None
         if kind == "probe":
             exp = m["expect"]
